@@ -140,19 +140,18 @@ pub fn probe(r: &mut Runner, _step: &Step) {
             }
             None => (spot_n, sp),
         };
-        let mut rl = match ratio(pos.margin, p_sel, f, n_sel, d) {
+        let mut rl = match ratio_ext(pos.margin, p_sel, f, n_sel, d) {
             Some(x) => x,
             None => continue,
         };
         let dev = smul_div(vo.spot as i128 - feed_price as i128, d as i128, feed_price as i128).unwrap_or(0);
         if dev.unsigned_abs() >= d / 10 {
+            // (a position worth nothing at the oracle price still has an equity there, and its sign decides)
             let on = mul_div(feed_price, sz, d).unwrap_or(0);
-            if on > 0 {
-                if let (Some(op), true) = (pnl(pos.dir, on, pos.notional), true) {
-                    if let Some(ro) = ratio(pos.margin, op, f, on, d) {
-                        if ro > rl {
-                            rl = ro;
-                        }
+            if let Some(op) = pnl(pos.dir, on, pos.notional) {
+                if let Some(ro) = ratio_ext(pos.margin, op, f, on, d) {
+                    if ro > rl {
+                        rl = ro;
                     }
                 }
             }
